@@ -231,6 +231,7 @@ fn setup(o: &Opts, scratch: &Path, only_complete_reference: bool) -> Result<Ctx,
         repo: o.repo.clone(),
         alt: false,
         ver: false,
+        env: vec![],
         rand: 1,
     };
     let out = launcher.simnode(&gold, &scratch.join("gold"), "gold", &session, 0);
@@ -274,7 +275,7 @@ fn setup(o: &Opts, scratch: &Path, only_complete_reference: bool) -> Result<Ctx,
             let alauncher = Launcher { bin_dir: bin.clone(), allowed: allowed_cpus(), child_timeout: Duration::from_secs(180) };
             let agold = Paths::new(scratch.join("alt-gold").join("xdg"));
             dirstate::wipe(&agold).unwrap_or_else(|e| harness_fail(&e.to_string()));
-            let asession = Session { cpus: 1, faults: vec![], ops: vec![Op::Open { slot: 0, mode: Mode::Disk, plan: Plan::default() }], expected_docs: ashipped.docs(), repo: repo.clone(), alt: true, ver: false, rand: 1 };
+            let asession = Session { cpus: 1, faults: vec![], ops: vec![Op::Open { slot: 0, mode: Mode::Disk, plan: Plan::default() }], expected_docs: ashipped.docs(), repo: repo.clone(), alt: true, ver: false, env: vec![], rand: 1 };
             let aout = alauncher.simnode(&agold, &scratch.join("alt-gold"), "gold", &asession, 0);
             let ainfo = dirstate::inspect(&agold, &ashipped);
             let (av, ah) = match &ainfo.meta {
@@ -305,7 +306,7 @@ fn setup(o: &Opts, scratch: &Path, only_complete_reference: bool) -> Result<Ctx,
             let alauncher = Launcher { bin_dir: bin.clone(), allowed: allowed_cpus(), child_timeout: Duration::from_secs(180) };
             let agold = Paths::new(scratch.join("ver-gold").join("xdg"));
             dirstate::wipe(&agold).unwrap_or_else(|e| harness_fail(&e.to_string()));
-            let asession = Session { cpus: 1, faults: vec![], ops: vec![Op::Open { slot: 0, mode: Mode::Disk, plan: Plan::default() }], expected_docs: ashipped.docs(), repo: repo.clone(), alt: false, ver: true, rand: 1 };
+            let asession = Session { cpus: 1, faults: vec![], ops: vec![Op::Open { slot: 0, mode: Mode::Disk, plan: Plan::default() }], expected_docs: ashipped.docs(), repo: repo.clone(), alt: false, ver: true, env: vec![], rand: 1 };
             let aout = alauncher.simnode(&agold, &scratch.join("ver-gold"), "gold", &asession, 0);
             let ainfo = dirstate::inspect(&agold, &ashipped);
             let (av, ah) = match &ainfo.meta {
@@ -829,7 +830,7 @@ fn cmd_run(o: &Opts) -> i32 {
                     property: "C15".into(),
                     seed: 0,
                     label: "clean first start".into(),
-                    steps: vec![Step::Start { session: Session { cpus: 1, faults: vec![], ops: vec![Op::Open { slot: 0, mode: Mode::Disk, plan: Plan::default() }], expected_docs: 0, repo: String::new(), alt: false, ver: false, rand: 0 } }],
+                    steps: vec![Step::Start { session: Session { cpus: 1, faults: vec![], ops: vec![Op::Open { slot: 0, mode: Mode::Disk, plan: Plan::default() }], expected_docs: 0, repo: String::new(), alt: false, ver: false, env: vec![], rand: 0 } }],
                 };
                 let v = Violation { property: "C15".into(), clause: "C15.clean-start".into(), step: 0, detail: why.clone(), focus: vec![], signature: "C15.clean-start".into() };
                 let path = write_replay(o, &h, &v, json!({"note": "reference start failed; not minimised"}));
